@@ -254,7 +254,9 @@ func runSpecEnv(bin string, spec RunSpec, idx int, gmp string) *RunResult {
 	os.WriteFile(sp, b, 0644)
 	defer os.Remove(sp)
 	defer os.Remove(op)
-	cmd := exec.Command(bin, "-test.run", "^TestSim$", "-test.timeout", "0")
+	// a runaway allocation in the process under test must not take the machine down:
+	// cap the address space (a breach ends the child with "out of memory", which is classified)
+	cmd := exec.Command("/bin/sh", "-c", "ulimit -v "+envOr("VSIM_ULIMIT_KB", "8000000")+"; exec \"$0\" \"$@\"", bin, "-test.run", "^TestSim$", "-test.timeout", "0")
 	cmd.Env = append(os.Environ(), "VSIM_SPEC="+sp, "VSIM_OUT="+op, "GOMAXPROCS="+gmp, "GOTRACEBACK=all")
 	var stderr bytes.Buffer
 	cmd.Stderr = &stderr
@@ -383,6 +385,14 @@ func violationsFor(prop string, r *RunResult, bin string, idx int) []Violation {
 			out = append(out, Violation{Prop: "C18", Rule: "panic", Detail: fmt.Sprintf("decoder panicked on peer-supplied bytes: %s\n%s", p.Value, top)})
 		}
 	}
+	if r.crashed && prop == "C03" {
+		switch {
+		case strings.Contains(r.stderr, "out of memory") || strings.Contains(r.stderr, "cannot allocate memory"):
+			out = append(out, Violation{Prop: "C03", Rule: "memory-exhaustion", Detail: "the process ran out of memory (address space capped for the run): a goroutine allocates without bound\n" + firstLines(crashStack(r.stderr), 30)})
+		case strings.Contains(r.stderr, "fatal error:"):
+			out = append(out, Violation{Prop: "C03", Rule: "fatal", Detail: "the process died with a runtime fatal error\n" + firstLines(crashStack(r.stderr), 30)})
+		}
+	}
 	if r.hang && prop == "C03" {
 		out = append(out, Violation{Prop: "C03", Rule: "spin", Detail: "a goroutine never reached a scheduling point (real-time watchdog fired)\n" + firstLines(r.stderr, 40)})
 	}
@@ -433,6 +443,25 @@ func topLibFrames(stack string, n int) string {
 		}
 	}
 	return sb.String()
+}
+
+// crashStack keeps the fatal error line and the first goroutine stacks that mention the library.
+func crashStack(stderr string) string {
+	i := strings.Index(stderr, "fatal error:")
+	if i < 0 {
+		i = 0
+	}
+	s := stderr[i:]
+	var keep []string
+	for _, l := range strings.Split(s, "\n") {
+		if strings.HasPrefix(l, "fatal error") || strings.HasPrefix(l, "goroutine ") || strings.Contains(l, "tchannel-go") {
+			keep = append(keep, l)
+		}
+		if len(keep) > 40 {
+			break
+		}
+	}
+	return strings.Join(keep, "\n")
 }
 
 func firstLines(s string, n int) string {
